@@ -228,7 +228,7 @@ BOUNDARY = [
 
 def oracle_search(ctx, corr, broken):
     env = ss.locate_statements()
-    deadline = time.time() + ctx.budget(60, 600)
+    deadline = time.time() + ctx.budget(40, 600)
     known = getattr(ctx, "known_signatures", set())
 
     def examine(case, choices, park_all):
